@@ -96,7 +96,14 @@ lines.append("Each sub-agent saw only the text of one property and a scratch "
              "results still in use; repeated steps with changed inputs) and "
              "legal input variants a convenient writer does not produce "
              "(optional header / info members, format options); 12 of 20 "
-             "were caught as the checks stood. %d changes in total: %d rejected as outside the "
+             "were caught as the checks stood. Round 18 (S18-*) swapped the "
+             "two instructions between the properties and told the agents "
+             "that simple re-use (the same object for two calls, a command "
+             "run twice) is already exercised: they went for three-step "
+             "sequences, alternation between two datasets / scales, edits of "
+             "returned objects, spellings of the dataset directory; 6 of 20 "
+             "were caught as the checks stood, 2 were classified as outside "
+             "the domain (one directory holding both file layouts). %d changes in total: %d rejected as outside the "
              "quantified domain (marked), %d not detected (marked, a "
              "documented limit), %d detected; "
              "the 'caught by' column says when a check had to be "
